@@ -660,6 +660,7 @@ func init() {
 			{"T3", "the flag word has a bit for every header type, HdrOther is the largest type, the first-of-type table has HdrOther-1 slots indexed Type-1 and keeps the first header of a type", ruleT3},
 			{"T5", "line-end accounting in every streaming caller: on every path from an end-of-header verdict of a line-end skipper (offset, line-end length, verdict) to a return with a completing verdict, the returned offset is that call's offset plus that call's line-end length (phis resolved by the edge taken), never a guessed length", ruleT5},
 			{"T6", "exact byte sets of the scanners header names and generic values are cut with (shared with C08-S5): skipTokenDelim, skipToken, skipWS, skipLine", func(c *Ctx) { scannerSets(c, "T6") }},
+			{"T8", "the automaton extracted from ParseHdrLine equals the reviewed reference table (ref/ParseHdrLine.txt): for every state and byte class the next state or exit, the verdict set, the field actions with their arguments (locals other than the scan index abstracted) and the returned offset; a transition that loses an action, changes target, verdict or byte class shows up as a missing and an extra row", func(c *Ctx) { fsmRefRule(c, "T8", "ParseHdrLine") }},
 			{"T7", "the empty line that ends the block, from the extracted ParseHdrLine automaton in its initial state: lone LF -> (index+1, empty) with no callee and no look-ahead; CR LF -> (index+2, empty); CR other -> (index+1, empty); CR as last byte may ask for more; no other first byte yields empty", ruleT7},
 			{"T4", "exact decision table of skipCRLF from byte sets at each return: CR LF advances 2, lone CR (next byte not LF) or lone LF advances 1, anything else does not advance", ruleT4},
 		},
